@@ -252,7 +252,14 @@ pub fn run_property(prop: &Property, tier: Tier) -> i32 {
 
     // Phase C: sharded search
     let mut jobs: VecDeque<Job> = VecDeque::new();
+    let only = std::env::var("NV_ONLY_SUB").ok();
     for (i, s) in prop.subs.iter().enumerate() {
+        if let Some(f) = &only {
+            // debugging aid: run only the sub-checks whose name contains one of the comma-separated parts
+            if !f.split(',').any(|part| s.name().contains(part)) {
+                continue;
+            }
+        }
         let total = s.cases(tier);
         if total == 0 {
             continue;
@@ -316,6 +323,7 @@ pub fn run_property(prop: &Property, tier: Tier) -> i32 {
                                     Some(r) => (Ok(r), None),
                                     None => (Err("shard produced no result file".to_string()), None),
                                 },
+                                ChildEnd::Exited(c) if c == shard::EXIT_CASE_TIMEOUT => (Err("case-timeout".to_string()), cur_case),
                                 ChildEnd::Exited(c) => (Err(format!("shard exited with code {c}")), cur_case),
                                 ChildEnd::Signaled(sg) => (Err(format!("signal:{}", signal_name(sg))), cur_case),
                                 ChildEnd::TimedOut => (Err("timeout".to_string()), cur_case),
@@ -484,13 +492,13 @@ pub fn run_property(prop: &Property, tier: Tier) -> i32 {
         println!("VIOLATION property={} replay={}", prop.id, path);
         println!("  {}", summary);
     }
+    for m in &inconclusive {
+        println!("INCONCLUSIVE: property={} {}", prop.id, m);
+    }
     if !violations.is_empty() {
         return 1;
     }
     if !inconclusive.is_empty() {
-        for m in &inconclusive {
-            println!("INCONCLUSIVE: property={} {}", prop.id, m);
-        }
         return 2;
     }
     0
